@@ -129,7 +129,7 @@ CHECKS = {
                 "the construction invariant (each live end in exactly one cell, the cell given by the independently restated half-open "
                 "rule, lookup agrees, adjacency = 3x3 neighbourhood) and the nearest() contract (live id, start unless reversal, no live end "
                 "of the query's neighbourhood - or anywhere when it is empty - strictly closer; true nearest within one cell width). Cases with two ends are also run after another index was built and queried in the same interpreter.",
-        "note": "path ends <= 2, bins <= 3 (quick) / 4 (thorough); exact-real model of the bin arithmetic; non-zero extent assumed; "
+        "note": "path ends <= 2, bins <= 3 plus one 4 x 4 case (quick) / bins <= 4 with removals and reversal (thorough); exact-real model of the bin arithmetic; non-zero extent assumed; "
                 "sequences of removals covered by running nearest() after every removal subset",
         "technique": "symbolic execution of the Python source on z3 real terms (solver-guided concretisation of bin indices) + SMT (QF_NRA) obligations per path, counterexample replay",
     },
